@@ -172,7 +172,7 @@ def open_existing(ctx, rule='C06.open-existing'):
     # zero-expected: nothing truncates or unconditionally creates
     nopt = 0
     for fn in F.fns:
-        for bb, t, c in calls_named(F, fn, 'OpenOptions::truncate', 'OpenOptions::create', 'File::create', 'File::create_new', 'OpenOptions::append'):
+        for bb, t, c in calls_named(F, fn, 'OpenOptions::truncate', 'File::create'):
             nopt += 1
             v = op_const_val(t['args'][1]) if len(t['args']) > 1 else 1
             if v != 0:
